@@ -138,12 +138,23 @@ def _nontrivial_hist(spec):
 # ---- histogram.scale ------------------------------------------------------
 
 def strat_hscale(tier):
-    return st.fixed_dictionaries({"h": hist_spec(), "s": st.one_of(targets, st.just(0)),
-                                  "twice": st.booleans()})
+    # contents and targets of every magnitude (powers of two keep the arithmetic exact): an integral of
+    # 1e-15 is not a zero scale
+    return st.fixed_dictionaries({"h": hist_spec(), "s": st.one_of(targets, targets, st.just(0), st.sampled_from([2.0 ** -50, -2.0 ** -70, 2.0 ** 45])),
+                                  "twice": st.booleans(),
+                                  "mag_exp": st.sampled_from([0, 0, 0, 0, -45, -50, -90, 60])})
+
+
+def _scaled_spec(spec, k):
+    if not k:
+        return spec
+    def rec(b):
+        return [rec(x) for x in b] if isinstance(b, list) else (b * 2.0 ** k if b else b)
+    return dict(spec, bins=rec(spec["bins"]))
 
 
 def judge_hscale(case):
-    spec, s = case["h"], case["s"]
+    spec, s = _scaled_spec(case["h"], case.get("mag_exp", 0)), case["s"]
     h = mk_hist(spec)
     dim = len(spec["edges"])
     I = exact_integral(spec)
@@ -182,7 +193,7 @@ def judge_hscale(case):
         raise Violation("histogram-scale-not-stored", "scale() = %r after scale(%r)" % (h.scale(), s))
     tot = sum(abs(float(c) * f) * _vol(eds) for _, c, eds in cells_of(spec))
     rec = h.scale(recompute=True)
-    if abs(rec - s) > 1e-9 * tot + 1e-12:
+    if abs(rec - s) > 1e-9 * tot + 1e-300:
         raise Violation("histogram-recomputed-scale-differs",
                         "scale(recompute=True) = %r after scale(%r)" % (rec, s))
     if case["twice"]:
@@ -194,7 +205,8 @@ def judge_hscale(case):
         for idx in before:
             if not close(after2[idx], before[idx] / float(I), rel=32 * EPS * cond, abs_=1e-300):
                 raise Violation("histogram-second-rescale-wrong", "cell %r: %r" % (idx, after2[idx]))
-    return {"nontrivial": _nontrivial_hist(spec), "classes": ["dim=%d" % dim, spec["kind"]]}
+    return {"nontrivial": _nontrivial_hist(spec), "classes": ["dim=%d" % dim, spec["kind"]] + (
+        ["integral-below-1e-12"] if abs(float(I)) < 1e-12 else []) + (["target-below-1e-12"] if abs(s) < 1e-12 else [])}
 
 
 def _vol(eds):
@@ -616,7 +628,7 @@ def graph_spec(draw):
         j = draw(st.integers(i + 1, len(cols) - 1))
         cols[j] = list(cols[i])
         alias = [i, j]
-    scale = draw(st.sampled_from(["none", 0, 1, 2, 0.5, -4, 10.0]))
+    scale = draw(st.sampled_from(["none", 0, 1, 2, 0.5, -4, 10.0, 2.0 ** -50, -2.0 ** -70, 2.0 ** 45]))
     return {"names": names + errs, "dim": dim, "cols": cols, "alias": alias, "scale": scale,
             "names_as_str": draw(st.booleans())}
 
@@ -665,7 +677,7 @@ def check_graph_rescaled(g, spec, s, what):
 
 
 def strat_gscale(tier):
-    return st.fixed_dictionaries({"g": graph_spec(), "s": targets})
+    return st.fixed_dictionaries({"g": graph_spec(), "s": st.one_of(targets, targets, targets, st.sampled_from([2.0 ** -50, -2.0 ** -70, 2.0 ** 45]))})
 
 
 def judge_gscale(case):
